@@ -113,6 +113,22 @@ func c17Monitor(st *engine.Step) {
 				}
 			}
 		}
+		// a mailed token never shows up in a response, unless the request itself presented it
+		for _, sec := range secrets {
+			if sec.kind != "rtok" && sec.kind != "ctok" && sec.kind != "vtok" {
+				continue
+			}
+			carried := containsAnySpelling(o.Req.Path, sec.val) || containsAnySpelling(o.Req.RawBody, sec.val)
+			for _, v := range o.Req.Form {
+				if containsAnySpelling(v, sec.val) {
+					carried = true
+				}
+			}
+			if !carried && (containsAnySpelling(o.Body, sec.val) || containsAnySpelling(o.Location, sec.val)) {
+				st.Report(engine.Violation{Rule: "C17/mailed-token-in-response", Attrs: "secret=" + sec.kind + ",request=" + o.Req.Tag.Kind,
+					Detail: fmt.Sprintf("the response to %s (browser %s) contains the mailed %s %s, which that request did not present: %s", st.Act.Name, o.Req.Browser, sec.kind, flows.Label(sec.val), trunc(o.Body, 200))})
+			}
+		}
 		// mailed tokens only go to the owning account
 		for _, m := range post.Mails {
 			kind, tok, ok := world.MailToken(m)
@@ -187,9 +203,10 @@ func c17Scenarios(tier string) []engine.Scenario {
 	for _, js := range []bool{false, true} {
 		sc := engine.Scenario{
 			Name: fmt.Sprintf("all-modules,json=%v", js), Depth: depth,
-			Cfg: world.Config{Modules: []string{"auth", "otp", "remember", "oauth2", "recover", "register", "confirm", "logout", "totp2fa", "sms2fa", "recovery"}, JSON: js, RecoverLoginAfter: true, EmailAuthRequired: true},
+			Cfg: world.Config{Modules: []string{"auth", "otp", "remember", "oauth2", "recover", "register", "confirm", "logout", "totp2fa", "sms2fa", "recovery"}, JSON: js, RecoverLoginAfter: true, EmailAuthRequired: true, SharedLayout: true},
 			Init: func(s *world.Stack) *world.World {
 				w := world.NewWorld("B1", "B2")
+				w.Layout = map[string]interface{}{"site_name": "verif"}
 				flows.SeedAcct(s, w, flows.Acct{PID: U1, Password: P1, Secondary: []string{c17Secondary}})
 				flows.SeedAcct(s, w, flows.Acct{PID: U2, Password: P2, TOTPSecret: flows.TOTPSecrets[1], RecoveryCodes: []string{"ddddd-44444", "eeeee-55555"}})
 				w.Truth.Flags["c17:pw:"+P1], w.Truth.Flags["c17:pw:"+P2] = "1", "1"
@@ -290,6 +307,12 @@ func c17Scenarios(tier string) []engine.Scenario {
 				}, ""))
 			}
 			a = append(a, flows.Restart(b))
+			a = append(a, simple("recover-page(B2)", func(s *world.Stack) world.Req {
+				return world.Req{Browser: "B2", Method: "GET", Path: "/auth/recover", ForceForm: true, Tag: world.Tag{Kind: "page"}}
+			}))
+			a = append(a, simple("login-page(B2)", func(s *world.Stack) world.Req {
+				return world.Req{Browser: "B2", Method: "GET", Path: "/auth/login", ForceForm: true, Tag: world.Tag{Kind: "page"}}
+			}))
 			a = append(a, simple("open(B1)", func(s *world.Stack) world.Req { return flows.Open(b) }))
 			a = append(a, simple("logout(B1)", func(s *world.Stack) world.Req { return flows.Logout(s, b) }))
 			a = append(a, simple("logout(B2)", func(s *world.Stack) world.Req { return flows.Logout(s, "B2") }))
@@ -306,10 +329,10 @@ var _ = time.Second
 func init() {
 	engine.Register(&engine.Property{
 		ID: "C17", Level: "model_checking",
-		Rule:  "E1 over the union of the successful and failing steps of every flow (all modules, e-mail authorisation on, form and JSON) incl. near-miss inputs a user really produces (mailed token with a trailing character or truncated, wrong password with the right one as a prefix); after every transition every known plaintext is searched for in all stored fields, the remember table and the transition's log lines, and token mails are checked against the owner's addresses; classes = request kinds, mail kinds and secret kinds in play",
+		Rule:  "E1 over the union of the successful and failing steps of every flow (all modules, e-mail authorisation on, form and JSON) incl. near-miss inputs a user really produces (mailed token with a trailing character or truncated, wrong password with the right one as a prefix); after every transition every known plaintext is searched for in all stored fields, the remember table and the transition's log lines, token mails are checked against the owner's addresses, and every response body / location is searched for mailed tokens the request did not itself present; classes = request kinds, mail kinds and secret kinds in play",
 		Units: func(tier string) []engine.Unit { return e1Units(c17Scenarios(tier)) },
 		Need: []string{"known-secret:password", "known-secret:otp", "known-secret:rc", "known-secret:rm", "known-secret:rtok", "known-secret:ctok", "known-secret:vtok",
 			"mail:rtok", "mail:ctok", "mail:vtok", "request:confirm", "request:recover_end", "request:otplogin"},
-		Assumptions: []string{"TOTP secrets and the session-held SMS / e-mail-verify values are outside the statement and are not scanned", "fault injection and malformed percent-encoding are not in this alphabet (DESIGN.md 7.11)", "responses are out of scope by the statement"},
+		Assumptions: []string{"TOTP secrets and the session-held SMS / e-mail-verify values are outside the statement and are not scanned", "fault injection and malformed percent-encoding are not in this alphabet (DESIGN.md 7.11)", "responses are scanned for mailed tokens only (a token may appear only in the response to a request that presented it); passwords and codes in responses are out of scope by the statement", "the application injects one layout data map into every request context (CTXKeyData)"},
 	})
 }
